@@ -3,7 +3,8 @@
    internal nodes, node dispatch, the Merkle proof verifier walk).  Every
    theorem is for all byte strings / entry lists / allocation counters. *)
 From Verif Require Import Lib.Base Decode.GoSlice Decode.GoSliceFacts Decode.Node Decode.NodeProofs
-  Decode.ProofEntries Decode.ProofEntriesProofs Decode.RoundTrip Gen.DecodeConsts.
+  Decode.ProofEntries Decode.ProofEntriesProofs Decode.RoundTrip Decode.Quote Decode.QuoteProofs
+  Gen.DecodeConsts Gen.QuoteConsts.
 
 Theorem gen_layout_expected :
   DepthSize = 2 /\ ValueLengthSize = 4 /\ HashSize = 32 /\
@@ -164,3 +165,40 @@ Theorem wf_example :
      = Ok (mkInode 12 [171; 192] (Some (mkLeaf [171; 192] [1; 2; 3])) (Some (repeat 7 32)) None, 81).
 Proof. exact RoundTrip.wf_example. Qed.
 Print Assumptions wf_example.
+
+(* ---------- PCS quote binary layout (go/common/sgx/pcs/quote.go, report.go) ----------
+   [pem_ok] is the observed outcome of the (unmodelled) PEM/X.509 parse of a
+   PCK certificate chain; the statements hold for both values. *)
+Theorem gen_quote_layout_expected :
+  quoteHeaderLen = 48 /\ reportBodySgxLen = 384 /\ reportBodyTdLen = 584 /\
+  quoteSigSizeLen = 4 /\ quoteSigEcdsaP256MinLen = 584 /\ ppidDataLen = 404 /\
+  quoteVersionV3 = 3 /\ quoteVersionV4 = 4 /\ MrEnclaveSize = 32 /\ MrSignerSize = 32.
+Proof. exact QuoteProofs.gen_quote_layout_expected. Qed.
+Print Assumptions gen_quote_layout_expected.
+
+Theorem decode_quote_total : forall pem_ok trailing b s,
+  fst (quote_unmarshal pem_ok trailing b s) <> Panic.
+Proof. exact decode_quote_total_l. Qed.
+Print Assumptions decode_quote_total.
+
+Theorem decode_quote_bounded : forall pem_ok trailing b s,
+  snd (quote_unmarshal pem_ok trailing b s) <= s + glen b /\
+  (forall q n s', quote_unmarshal pem_ok trailing b s = (Ok (q, n), s') ->
+     n <= glen b /\ (trailing = false -> n = glen b)).
+Proof. exact decode_quote_bounded_l. Qed.
+Print Assumptions decode_quote_bounded.
+
+Theorem decode_quote_parts_total : forall pem_ok version b s,
+  fst (header_v3 b s) <> Panic /\ fst (header_v4 b s) <> Panic /\
+  fst (sgx_report b s) <> Panic /\ fst (td_report b s) <> Panic /\
+  fst (ppid b s) <> Panic /\ fst (qe_report pem_ok b s) <> Panic /\
+  fst (sig_ecdsa pem_ok version b s) <> Panic.
+Proof. exact decode_quote_parts_total_l. Qed.
+Print Assumptions decode_quote_parts_total.
+
+Theorem quote_huge_siglen_is_err :
+  fst (run (quote_unmarshal true false
+    ([3; 0; 2; 0; 0; 0; 0; 0; 0; 0; 0; 0] ++ QEVendorID_Intel ++ repeat 0 20 ++ repeat 0 384
+       ++ [255; 255; 255; 255]))) = Err Q_TRAILING.
+Proof. exact QuoteProofs.quote_huge_siglen_is_err. Qed.
+Print Assumptions quote_huge_siglen_is_err.
